@@ -43,6 +43,11 @@ pub fn run(ctx: &Ctx, reg: &Registry) -> i32 {
                 for k in 0..nd.min(96) {
                     check(&mut acc, reg, s, &case, Source::Ov, Script::BreakFrom(k));
                 }
+                if nd > 0 {
+                    for pol in policies() {
+                        check(&mut acc, reg, s, &case, Source::Ov, pol);
+                    }
+                }
                 for j in 0..n_bits {
                     let sd = ctx.seed.wrapping_mul(1000003) ^ (i << 8) ^ j;
                     check(&mut acc, reg, s, &case, Source::Ov, if j % 2 == 0 { Script::Bits(sd) } else { Script::Coin(sd) });
